@@ -9,12 +9,29 @@
 
   Assumptions carried by the extractor (trusted, validated dynamically by the fingerprint and race
   harness): syntactic points-to rules, allow-list of external calls, caller-supplied function
-  values (search predicate, overlay visitor, encoder / mapping functions, merge options) do not
+  values (search predicate, overlay visitor, encoder / mapping functions, list-merge function) do not
   write the document, all `dom.Node` implementations are the package's own.  A list merge function
   that the analysed packages themselves hand to an option constructor (`ListsMergeAppend` passes
   `mergeListsAppend` to `ListsMergeFunc`, which stores it in `merger.listMergeFn`) is NOT treated as
   caller-supplied: the call through the field fans out to it, so a write through one of its list
   arguments (e.g. an `append` into the first list's backing array) is charged to `Merged`.
+
+  Merge options are NOT assumed anything about — they are resolved:
+  * the default options `for _, opt := range defOpts { opt(mg) }` of `merger.init`: `defOpts` is an
+    unexported package-level variable whose initializer `[]MergeOption{defaultListMerger()}` is
+    enumerable (a literal returned by a package function) and that no file of the package assigns,
+    appends to, stores into or takes the address of; the call fans out to that literal
+    (`dom.defaultListMerger$1`, a table entry of its own).  The table records this in `pkgVars`
+    (`resolved`, `fnValues`, `writers`), and `resolvedVars_neverWritten` checks that, over the whole
+    table, nothing writes the variable — not even through an alias, which the syntactic scan would miss;
+  * the caller's options `for _, opt := range opts { opt(mg) }`: `MergeOption = func(*merger)` mentions
+    the unexported type `merger`, so no other package can write a function of that type; the call fans
+    out to every function literal / function of that type in the analysed packages
+    (`dom.defaultListMerger$1`, `dom.ListsMergeFunc$1`).  (Trusted: nobody forges a `MergeOption` by
+    reflection or by instantiating generic code of their own with the inferred type.)
+  THE ONE ASSUMPTION left for `Merged` / `Merge` is therefore the function a caller hands to
+  `ListsMergeFunc(fn)`: `fn` is called through `merger.listMergeFn` (callback "field:listMergeFn") and
+  is assumed not to write — `merged_callbacks_only_listMergeFn`.
 -/
 import YtkProofs.Effects
 import YtkModel.Generated.Effects
@@ -55,19 +72,96 @@ theorem readApi_writeFree :
     ∀ e ∈ readApi, ∀ r ∈ writesOf effectTable e.2, isGlobal r = true := by
   decide +kernel
 
-/-- Nor through any package variable — except that `Merged` (and overlay `Serialize`, which calls
-    it) runs the merge options `defOpts` / `opts...`, function values the extractor does not
-    resolve: the conservative rule charges such a call with a write to the *unknown* global
-    (roots 1000–1002) and to its arguments, which here is the freshly allocated `merger`.
-    Full statement (not proved): `∀ e ∈ readApi, writesOf effectTable e.2 = []`. -/
-theorem readApi_globalFree_partial :
-    ∀ e ∈ readApi, e.1 ≠ "OverlayDocument.Merged" → e.1 ≠ "OverlayDocument.Serialize" →
-      writesOf effectTable e.2 = [] := by
+/-- Nor through any package variable, nor through the unknown global (roots 1000–1002) that every call of an
+    unknown callee is charged with: the closed write summary of EVERY read API function is empty — `Merged`
+    and overlay `Serialize` (which calls it) included, with the default options and with whatever options the
+    package's constructors (`ListsMergeAppend`, `ListsMergeFunc`) produce.  The same for `auxApi`
+    (`ContainerBuilder.Merge`, below). -/
+theorem readApi_globalFree : ∀ e ∈ readApi ++ auxApi, writesOf effectTable e.2 = [] := by
   decide +kernel
 
-/-- what remains for the two excluded methods is only the unknown-global charge -/
-theorem merged_only_unknown_global :
-    ∀ e ∈ readApi, ∀ r ∈ writesOf effectTable e.2, r = 1000 ∨ r = 1001 ∨ r = 1002 := by
+/-- `ContainerBuilder.Merge(other, opts...)` is not a method of the read interfaces, but it must not write
+    either (it builds a new container): every implementation is in the table … -/
+theorem auxApi_complete :
+    (∀ m ∈ ["ContainerBuilder.Merge"], m ∈ auxApi.map (·.1)) ∧ (∀ e ∈ auxApi, e.2 < effectTable.length) := by
+  decide +kernel
+
+/-- … and writes nothing: not its receiver, not `other`, not the options, no package variable, no unknown global. -/
+theorem merge_writeFree : ∀ e ∈ auxApi, writesOf effectTable e.2 = [] :=
+  fun e he => readApi_globalFree e (List.mem_append_right _ he)
+
+/-! #### What is behind an entry point: reachable functions -/
+
+/-- The computed reachability is a fixpoint (the fuel sufficed) … -/
+theorem reach_fixpoint : reachStep effectTable (reachAll effectTable) = reachAll effectTable := by
+  decide +kernel
+
+/-- … and closed: every function reaches itself and everything the callee of any of its call edges reaches. -/
+theorem reach_closed : ReachClosed effectTable (reachAll effectTable) := by
+  decide +kernel
+
+/-- No function behind the read API (or `Merge`) calls an UNKNOWN callee: no function value the extractor could
+    not enumerate, no un-allow-listed call leaving the analysed packages, no body-less function. -/
+theorem readApi_noUnknownCallee :
+    ∀ e ∈ readApi ++ auxApi, ∀ j ∈ reachOf effectTable e.2, (effectTable.getD j default).unknownCalls = [] := by
+  decide +kernel
+
+/-- (the extractor's rule, checked on the table: a function with an unknown call is charged with the unknown
+    global, so `readApi_globalFree` alone already excludes one) -/
+theorem unknownCalls_charged : ∀ f ∈ effectTable, f.unknownCalls ≠ [] → 1000 ∈ f.writes := by
+  decide +kernel
+
+/-- The caller-supplied function values that ARE called behind the read API, and assumed not to write — the
+    complete list, as (function, callback): a number is the parameter slot of that function. -/
+def assumedCallbacks : List (String × String) :=
+  [("dom.(*containerImpl).Search", "1"),          -- the search predicate
+   ("dom.(*containerImpl).Serialize", "2"),       -- the encoder
+   ("dom.(*containerImpl).Serialize", "3"),       -- the node mapping function
+   ("dom.(*overlayDocument).Serialize", "2"),
+   ("dom.(*overlayDocument).Serialize", "3"),
+   ("dom.walkNode", "5"),                          -- the overlay visitor (the property's "read-only visitor")
+   ("dom.(*merger).mergeContainers", "field:listMergeFn"),   -- ListsMergeFunc(fn)'s fn
+   ("dom.(*merger).mergeListsMeld", "field:listMergeFn")]
+
+theorem readApi_callbacks_listed :
+    ∀ e ∈ readApi ++ auxApi, ∀ j ∈ reachOf effectTable e.2, ∀ c ∈ (effectTable.getD j default).callbacks,
+      ((effectTable.getD j default).name, c) ∈ assumedCallbacks := by
+  decide +kernel
+
+/-- For `OverlayDocument.Merged` and `ContainerBuilder.Merge` the ONLY function value called that is not
+    resolved to functions of the table is the list-merge function a caller passed to `ListsMergeFunc`
+    (stored in, and called through, `merger.listMergeFn`).  The merge options themselves — `defOpts` and the
+    caller's `opts...` — are resolved: no callback entry for them, no unknown call (`readApi_noUnknownCallee`). -/
+theorem merged_callbacks_only_listMergeFn :
+    ∀ e ∈ readApi ++ auxApi, e.1 = "OverlayDocument.Merged" ∨ e.1 = "ContainerBuilder.Merge" →
+      ∀ j ∈ reachOf effectTable e.2, ∀ c ∈ (effectTable.getD j default).callbacks, c = "field:listMergeFn" := by
+  decide +kernel
+
+/-! #### Package-level variables (`pkgVars`: the syntactic scan of every file of the analysed packages) -/
+
+/-- `pkgVars` lists exactly the variables behind the global roots (global 0 is the unknown global), and its
+    function indices point into the table. -/
+theorem pkgVars_wellFormed :
+    globalNames.length = pkgVars.length + 1 ∧
+    ∀ v ∈ pkgVars, globalNames[v.global]? = some v.name ∧ v.global ≠ 0 ∧
+      (∀ j ∈ v.writers, j < effectTable.length) ∧ (∀ j ∈ v.fnValues, j < effectTable.length) := by
+  decide +kernel
+
+/-- No function behind the read API (or `Merge`) contains an assignment to a package-level variable, a store
+    into or through one, an `append` to one, or takes the address of one — independently of the points-to
+    analysis (a memo map filled by `Child` is caught here and by `readApi_globalFree`). -/
+theorem readApi_noPkgVarWriter :
+    ∀ e ∈ readApi ++ auxApi, ∀ j ∈ reachOf effectTable e.2, ∀ v ∈ pkgVars, j ∉ v.writers := by
+  decide +kernel
+
+/-- Every variable whose contents the extractor relied on (calls of function values read from it were resolved
+    to its initializer's functions) is unexported, initialised, has NO syntactic writer anywhere, and NO function
+    of the whole table writes it or anything reachable from it in its closed summary — which also covers a
+    write through an alias (`x := defOpts; x[0] = f`) or by a callee that was handed the variable. -/
+theorem resolvedVars_neverWritten :
+    ∀ v ∈ pkgVars, v.resolved = true →
+      v.exported = false ∧ v.hasInit = true ∧ v.writers = [] ∧ v.initWritten = false ∧
+      ∀ i ∈ List.range effectTable.length, ∀ r ∈ writesOf effectTable i, rootGlobal r ≠ some v.global := by
   decide +kernel
 
 /-- Composition: if every function's own writes are within its direct summary, the writes of ANY
@@ -84,6 +178,27 @@ theorem readApi_runs_writeFree (e : String × Nat) (he : e ∈ readApi) (run : R
   have := run_sound effectTable (writesAll effectTable) summary_closed run h r hr
   rw [hfn] at this
   exact readApi_writeFree e he r this
+
+/-- … nor through a package variable or the unknown global: such an execution writes NOTHING the analysis can
+    name, it executes no function with an unknown call, and no function that syntactically writes a
+    package-level variable. -/
+theorem readApi_runs_globalFree (e : String × Nat) (he : e ∈ readApi ++ auxApi) (run : Run) (hfn : run.fn = e.2)
+    (h : run.Conforms effectTable) :
+    run.writes = [] ∧
+    ∀ j ∈ run.fns, (effectTable.getD j default).unknownCalls = [] ∧ ∀ v ∈ pkgVars, j ∉ v.writers := by
+  refine ⟨?_, ?_⟩
+  · apply List.eq_nil_iff_forall_not_mem.mpr
+    intro r hr
+    have := run_sound effectTable (writesAll effectTable) summary_closed run h r hr
+    rw [hfn] at this
+    have hnil : writesOf effectTable e.2 = [] := readApi_globalFree e he
+    simp only [writesOf] at hnil
+    rw [hnil] at this
+    cases this
+  · intro j hj
+    have := run_fns_reach effectTable reach_closed run h j hj
+    rw [hfn] at this
+    exact ⟨readApi_noUnknownCallee e he j this, readApi_noPkgVarWriter e he j this⟩
 
 /-- Threads that only read have no data race: any number of threads. -/
 theorem no_race_of_readOnly (ts : List Thread) (h : ReadOnly ts) : ¬ Race ts :=
@@ -113,6 +228,38 @@ theorem nonvacuous_d25_detected :
 theorem nonvacuous_writer_charged :
     ∃ i ∈ List.range effectTable.length,
       (effectTable.getD i default).name = "dom.(*containerBuilderImpl).AddValue" ∧ 0 ∈ writesOf effectTable i := by
+  decide +kernel
+
+/-- the default merge options ARE resolved: `defOpts` is a resolved variable with at least one function value,
+    `merger.init` has a call edge to each of them, and `init` is behind `Merged` and behind `Merge` -/
+theorem nonvacuous_defOpts_resolved :
+    ∃ v ∈ pkgVars, v.name = "dom.defOpts" ∧ v.resolved = true ∧ v.fnValues ≠ [] ∧
+      ∃ i ∈ List.range effectTable.length, (effectTable.getD i default).name = "dom.(*merger).init" ∧
+        (∀ j ∈ v.fnValues, j ∈ (effectTable.getD i default).calls.map (·.callee)) ∧
+        ∀ e ∈ readApi ++ auxApi, e.1 = "OverlayDocument.Merged" ∨ e.1 = "ContainerBuilder.Merge" →
+          i ∈ reachOf effectTable e.2 := by
+  decide +kernel
+
+/-- the shape of a memo cache (seeded change C20-4): `Child` stores into package variable 1 (root 1004 = what the
+    variable refers to); `Lookup` calls `Child`.  Both clauses see it: the closed summary charges the global
+    root to `Lookup`, and `Child`, a syntactic writer of the variable, is behind `Lookup`. -/
+def memoTable : List FnSummary :=
+  [ { name := "Child", slots := 2, writes := [1004], calls := [], callbacks := [], conservative := [] },
+    { name := "Lookup", slots := 2, writes := [], calls := [{ callee := 0, map := [(0, [0, 1, 2])] }], callbacks := [], conservative := [] } ]
+
+def memoVars : List PkgVar :=
+  [ { name := "memo", global := 1, exported := false, hasInit := true, writers := [0], writeKinds := ["store"],
+      initWritten := false, resolved := false, fnValues := [] } ]
+
+theorem nonvacuous_memo_detected :
+    writesOf memoTable 1 = [1004] ∧ rootGlobal 1004 = some 1 ∧ reachOf memoTable 1 = [0, 1] ∧
+    ReachClosed memoTable (reachAll memoTable) ∧
+    ∃ j ∈ reachOf memoTable 1, ∃ v ∈ memoVars, j ∈ v.writers := by
+  decide +kernel
+
+/-- unknown calls do occur in the real table (and are charged, `unknownCalls_charged`): the clause
+    `readApi_noUnknownCallee` is not about an empty field -/
+theorem nonvacuous_unknownCalls : ∃ f ∈ effectTable, f.unknownCalls ≠ [] ∧ 1000 ∈ f.writes := by
   decide +kernel
 
 /-- a race exists as soon as one thread writes what another reads -/
